@@ -26,7 +26,7 @@ func fixedBases() []struct {
 	g := Table{Name: "g", Cols: []Col{{Name: "id", Type: "integer", NotNull: true}, {Name: "c_id", Type: "integer"}, {Name: "x", Type: "real"}}, PK: []string{"id"},
 		FKs: []FK{{Name: "g_c", Cols: []string{"c_id"}, RefTable: "c", RefCols: []string{"id"}, OnDelete: "SET NULL"}}}
 	z := Table{Name: "z", Cols: []Col{{Name: "a", Type: "text"}, {Name: "b", Type: "blob"}}}
-	bs = append(bs, B{Schema{[]Table{p, c, g, z}}, []string{
+	bs = append(bs, B{Schema{Tables: []Table{p, c, g, z}}, []string{
 		"INSERT INTO p VALUES (1, 'one', NULL)", "INSERT INTO p VALUES (2, NULL, 2)", "INSERT INTO p VALUES (5, 'it''s', 3)",
 		"INSERT INTO c VALUES (10, 1, 'w1')", "INSERT INTO c VALUES (11, 1, NULL)", "INSERT INTO c VALUES (12, 5, 'w3')", "INSERT INTO c VALUES (13, NULL, 'orphan')",
 		"INSERT INTO g VALUES (100, 10, 1.5)", "INSERT INTO g VALUES (101, 12, NULL)", "INSERT INTO g VALUES (102, NULL, 0.25)",
@@ -36,7 +36,7 @@ func fixedBases() []struct {
 	t := Table{Name: "t", Cols: []Col{{Name: "a", Type: "text"}, {Name: "b", Type: "integer", Default: "0"}, {Name: "c", Type: "real", NotNull: true, Default: "1.5"},
 		{Name: "gv", Type: "text", Gen: "lower(`a`)", GenDep: "a"}, {Name: "gs", Type: "integer", Gen: "`b` + 1", Stored: true, GenDep: "b"}},
 		Uniques: [][]string{{"b"}}, Checks: []Check{{Name: "ck", Expr: "`b` <> 13"}}, Idx: []Idx{{Name: "ix_t_a", Cols: []string{"a"}}}}
-	bs = append(bs, B{Schema{[]Table{t, z}}, []string{
+	bs = append(bs, B{Schema{Tables: []Table{t, z}}, []string{
 		"INSERT INTO t (a, b, c) VALUES ('A', 1, 1.0)", "INSERT INTO t (a, b, c) VALUES (NULL, 2, 2.5)", "INSERT INTO t (a, b, c) VALUES ('B', NULL, 3.0)", "INSERT INTO t (a, b, c) VALUES ('B', NULL, 3.0)",
 		"INSERT INTO z VALUES ('a', x'00ff')",
 	}})
@@ -44,7 +44,7 @@ func fixedBases() []struct {
 	wp := Table{Name: "wp", Cols: []Col{{Name: "k1", Type: "integer", NotNull: true}, {Name: "k2", Type: "text", NotNull: true}, {Name: "v", Type: "numeric"}}, PK: []string{"k1", "k2"}, WithoutRowid: true}
 	wc := Table{Name: "wc", Cols: []Col{{Name: "id", Type: "integer", NotNull: true}, {Name: "r1", Type: "integer"}, {Name: "r2", Type: "text"}, {Name: "up", Type: "integer"}, {Name: "s", Type: "text", NotNull: true, Default: "'s'"}}, PK: []string{"id"}, AutoInc: true,
 		FKs: []FK{{Cols: []string{"r1", "r2"}, RefTable: "wp", RefCols: []string{"k1", "k2"}, OnDelete: "RESTRICT"}, {Name: "self", Cols: []string{"up"}, RefTable: "wc", RefCols: []string{"id"}, OnDelete: "CASCADE"}}}
-	bs = append(bs, B{Schema{[]Table{wp, wc}}, []string{
+	bs = append(bs, B{Schema{Tables: []Table{wp, wc}}, []string{
 		"INSERT INTO wp VALUES (1, 'a', 1)", "INSERT INTO wp VALUES (1, 'b', 'txt')", "INSERT INTO wp VALUES (2, 'a', NULL)",
 		"INSERT INTO wc (id, r1, r2, up, s) VALUES (1, 1, 'a', NULL, 'x')", "INSERT INTO wc (id, r1, r2, up, s) VALUES (2, 1, 'b', 1, 'y')", "INSERT INTO wc (id, r1, r2, up, s) VALUES (7, NULL, NULL, 2, 'z')",
 	}})
